@@ -327,19 +327,62 @@ def _param_provenance(ctx, f, pname, slots):
     return False, 'parameter %s (callers pass: %s)' % (pname, ', '.join(sorted(kinds)) or 'unknown')
 
 
+def _slot_address(f, d, depth=0):
+    """what a memcpy operand designates when it is the address of a relocatable slot
+    `arena->buffers[X->buffer_id].data + X->offset`: (True, {cursor names X}) - also
+    through a local naming that address and through a static helper that merely returns
+    it for the (arena, entry) it is handed; (False, set()) otherwise"""
+    d = cu.strip_casts(f, d)
+    if d is None or depth > 4:
+        return False, set()
+    if d['k'] == 'ref':
+        sd = cu.stable_def_of(f, d)
+        if sd is not None:
+            return _slot_address(f, sd, depth + 1)
+        # a local initialised once from a call of an address helper
+        dn = cu.decl_of(f, d)
+        if dn is not None and dn.get('c'):
+            init = cu.strip_casts(f, f.kid(dn, 0))
+            others = [x for x in f.all_nodes() if x['k'] == 'bin' and x['op'].endswith('=') and
+                      x['op'] not in ('==', '!=', '<=', '>=') and
+                      cu.strip_casts(f, f.kid(x, 0)) is not None and
+                      cu.strip_casts(f, f.kid(x, 0))['k'] == 'ref' and
+                      cu.strip_casts(f, f.kid(x, 0))['name'] == d['name'] and
+                      cu.decl_of(f, cu.strip_casts(f, f.kid(x, 0))) is dn]
+            if init is not None and init['k'] == 'call' and not others:
+                return _slot_address(f, init, depth + 1)
+        return False, set()
+    if d['k'] == 'call':
+        h = f.tu.functions.get(d.get('callee') or '')
+        if h is None or h is f:
+            return False, set()
+        rets = [n for n in h.all_nodes() if n['k'] == 'ret']
+        stmts = [n for n in h.all_nodes() if n['k'] in ('if', 'for', 'while', 'do', 'switch', 'goto')]
+        if len(rets) != 1 or stmts or not rets[0].get('c'):
+            return False, set()
+        ok, curs = _slot_address(h, h.kid(rets[0], 0), depth + 1)
+        if not ok:
+            return False, set()
+        hp = [p_['name'] for p_ in h.params]
+        out = set()
+        args = f.call_args(d)
+        for c_ in curs:
+            if c_ in hp and hp.index(c_) < len(args):
+                out.add(canon(f, args[hp.index(c_)]))
+        return True, out
+    has_data = any(x['k'] == 'member' and x['fld'] == 'data' and x.get('rec') == 'YR_ARENA_BUFFER'
+                   for x in f.walk(d))
+    curs = set(canon(f, f.kid(x, 0)) for x in f.walk(d) if x['k'] == 'member' and x['fld'] == 'offset')
+    return has_data, curs
+
+
 def r8_4(ctx):
     f = ctx.fn('yr_arena_save_stream', 'libyara/arena.c')
     problems = []
 
     def is_buffer_data_dst(n):
-        # arena->buffers[..].data + off
-        n = cu.strip_casts(f, n)
-        if n is not None and cu.stable_def_of(f, n) is not None:
-            n = cu.stable_def_of(f, n)        # a local naming the slot address
-        for x in f.walk(n):
-            if x['k'] == 'member' and x['fld'] == 'data' and x.get('rec') == 'YR_ARENA_BUFFER':
-                return True
-        return False
+        # arena->buffers[..].data + off, spelled directly, through a local or a helper
+        return _slot_address(f, n)[0]
 
     def src_kind(n):
         n = cu.strip_casts(f, n)
@@ -432,13 +475,8 @@ def r8_4b(ctx):
         def is_slot_store(n):
             if n['k'] != 'call' or n.get('callee') != 'memcpy':
                 return False
-            d = f.call_args(n)[0]
-            ds = cu.strip_casts(f, d)
-            if ds is not None and cu.stable_def_of(f, ds) is not None:
-                d = cu.stable_def_of(f, ds)
-            txt = canon(f, d)
-            return ('%s->offset' % cur) in txt and any(
-                x['k'] == 'member' and x['fld'] == 'data' for x in f.walk(d))
+            ok_, curs_ = _slot_address(f, f.call_args(n)[0])
+            return ok_ and cur in curs_
         stores = [x for x in f.walk(loop) if is_slot_store(x)]
         if not stores:
             continue
